@@ -109,6 +109,7 @@ func (env *SpecEnv) eval(e *SExpr) Val {
 				hi = fc.toIdx(env.eval(e.Args[2]))
 			}
 			fc.sliceSort()
+			fc.viewShift(env.cur, base, lo, base.Ty.Underlying().(*types.Slice).Elem())
 			return Val{T: app("mk-slice", app("s-arr", base.T), fc.addIdx(app("s-off", base.T), lo), fc.subIdx(hi, lo), fc.subIdx(app("s-cap", base.T), lo)), Ty: base.Ty}
 		}
 		env.fail(e, "slice expression on %s", base.Ty)
